@@ -398,7 +398,77 @@ def select(tier, seed):
     return gs + g4[seed % step::step], len(g4[seed % step::step]), len(g4)
 
 
+# ---------------------------------------------------------------------------
+# a definition that an included file delivers as well: the local one is what its users get, wherever it stands
+# ---------------------------------------------------------------------------
+
+SHADOW_INC = ('<x><struct name="Hdr"><member name="a" type="u16"/></struct><constant name="KS" value="2"/>'
+              '<enum name="ES"><enum-member name="ES_A" value="1"/></enum></x>')
+SHADOW_DEFS = {
+    'Msg': '<struct name="Msg"><member name="h" type="Hdr"/><member name="tail" type="u8"/></struct>',
+    'Hdr': '<struct name="Hdr"><member name="a" type="u32"/><member name="b" type="u32"/></struct>',
+    'Arr': '<struct name="Arr"><member name="x" type="u8"><dimension size="KS"/></member></struct>',
+    'KS': '<constant name="KS" value="5"/>',
+}
+SHADOW_MAIN = '<x xmlns:xi="http://www.xyz.com/1984/XInclude"><xi:include href="inc.xml"/>%s</x>'
+SHADOW_SETS = (('Msg', 'Hdr', 'Arr'), ('Arr', 'KS', 'Msg'), ('Msg', 'Hdr', 'Arr', 'KS'))
+
+
+def judge_shadow(job):
+    import os
+    T.setup_repo()
+    out = {'viol': [], 'runs': 0}
+    try:
+        for names in SHADOW_SETS:
+            sizes = {}
+            for order in itertools.permutations(names):
+                d = T.fresh_dir('c15s')
+                try:
+                    with open(os.path.join(d, 'inc.xml'), 'w') as f:
+                        f.write(SHADOW_INC)
+                    with open(os.path.join(d, 'main.xml'), 'w') as f:
+                        f.write(SHADOW_MAIN % ''.join(SHADOW_DEFS[n] for n in order))
+                    res = T.run_prophyc(['--isar', '--python_out', d, os.path.join(d, 'inc.xml'), os.path.join(d, 'main.xml')])
+                    out['runs'] += 1
+                    art = {'shadow': True, 'order': list(order), 'detail': ''}
+                    if not res.ok:
+                        out['viol'].append(('include-shadow|prophyc-fails|%s' % res.exc_type, dict(art, detail=str(res.exc)[:300])))
+                        continue
+                    text = open(os.path.join(d, 'main.py')).read()
+                    pos = dict((n, text.find(('class %s(' % n) if n != 'KS' else '\nKS = ')) for n in order)
+                    for user, dep in (('Msg', 'Hdr'), ('Arr', 'KS')):
+                        if user in pos and dep in pos and not 0 <= pos[dep] < pos[user]:
+                            out['viol'].append(('include-shadow|dependency-after-dependent|%s->%s' % (user, dep),
+                                                dict(art, detail='%s stands before the local %s it uses:\n%s' % (user, dep, text[-900:]))))
+                    try:
+                        mod = T.import_generated(os.path.join(d, 'main.py'))
+                        got = tuple((n, len(getattr(mod, n)().encode('<'))) for n in ('Msg', 'Arr') if n in names)
+                    except Exception as e:      # noqa
+                        out['viol'].append(('include-shadow|module-import-fails|%s' % type(e).__name__, dict(art, detail=str(e)[:300])))
+                        continue
+                    sizes.setdefault(got, order)
+                finally:
+                    shutil.rmtree(d, ignore_errors=True)
+            if len(sizes) > 1:
+                out['viol'].append(('include-shadow|layout-depends-on-order', {'shadow': True, 'order': [list(o) for o in sizes.values()],
+                                                                              'detail': 'encoded sizes by order: %r' % (sizes,)}))
+    except Exception:       # noqa
+        out['harness_error'] = traceback.format_exc()
+    return out
+
+
 def run(ctx):
+    for res in ctx.pmap(judge_shadow, [None]):
+        if 'harness_error' in res:
+            raise HarnessError(res['harness_error'])
+        ctx.cov['transitions'] += res['runs']
+        ctx.cov['evaluations'] += res['runs']
+        ctx.cov['traces_validated_against_impl'] += res['runs']
+        ctx.cov['include_shadow_runs'] = res['runs']
+        for key, art in res['viol']:
+            ctx.violation_counts[key] = ctx.violation_counts.get(key, 0) + 1
+            if len(ctx.violations.setdefault(key, [])) < 3:
+                ctx.violations[key].append(art)
     gs, n4, total4 = select(ctx.tier, ctx.seed)
     if n4 < total4:
         ctx.cap('4-definition sets: %d of %d explored in the quick tier (all sets of <= 3 definitions are complete)' % (n4, total4))
@@ -448,10 +518,17 @@ def run(ctx):
                        'the definitions, every dependency precedes its dependent, the Python module imports, layouts and '
                        'constants equal the reference for every order. non-trivial = set with at least one dependency. '
                        'sack: every set of <= 3 (4) enums / structs / unions as a C++ header (plain, dependencies in a namespace, '
-                       'every dependency used by two fields) in every declaration order C++ allows.')
+                       'every dependency used by two fields) in every declaration order C++ allows. Include shadowing: a file that includes '
+                       'another and redefines a struct / constant of it, every order of its definitions: the local definition '
+                       'precedes its users and the layouts do not depend on the order.')
 
 
 def replay(art):
+    if art.get('shadow'):
+        out = judge_shadow(None)
+        if out['viol']:
+            return 'include shadowing: %s: %s' % (out['viol'][0][0], out['viol'][0][1]['detail'][:600])
+        return None
     if art.get('sack'):
         res = T.compile_text(art['header'], outs=('python',), mode='sack', suffix='hpp')
         if not res.ok:
